@@ -218,7 +218,7 @@ PROPS["C15"] = dict(
 )
 PROPS["C05"] = dict(
     level="exploration",
-    technique="bounded: viewshed vs an O(n^2) evaluation of the stated line-of-sight model (exhaustive 3x3 prefix + random terrains); contract-level proofs for the geometric helpers the model is built from and for the local operations of the status tree (rotations keep the CLRS link structure and the augmented subtree maxima, node creation, key search, minimum)",
+    technique="bounded: viewshed vs an O(n^2) evaluation of the stated line-of-sight model (exhaustive 3x3 prefix + random terrains); contract-level proofs for the geometric helpers the model is built from and for the local operations of the status tree (rotations keep the CLRS link structure and the augmented subtree maxima, node creation, key search, minimum, the successor-payload move of deletion as an extracted fragment)",
     not_decided=["equivalence of the red-black-tree angular sweep with the line-of-sight model (needs a sweep-line argument over a globally well-formed tree): bounded only",
                  "insert / delete / fix-up and the range query of the status tree: their invariants need a global acyclicity ghost (no per-node measure survives a rotation); bounded only"],
     assumptions=[],
